@@ -351,4 +351,60 @@ def srcNums : List (String × Int) :=
    ("default.gausses.mu", 0), ("default.gausses.sigma", 1),
    ("gauss.log_coef", -2), ("gauss.angle_coef", 2), ("randint.plus", 1), ("randints.plus", 1)]
 
+/-! ### Phase 4 (continued): error paths of `choice`/`choicew` exactly as the code leaves the stream
+
+`choice` validates the lengths and the total BEFORE `next(self._randu)` is evaluated (ValueError: stream
+untouched), but the empty-sequence `IndexError` (unweighted) and the bare `StopIteration` of
+`next(compress(…))` (nothing found: negative total) are raised AFTER the uniform was drawn.  `step`
+(kept as it was) advances only for `IndexError`; `stepE` is the exact version the driver runs. -/
+
+/-- does this error surface after the uniform was drawn? -/
+def errConsumes : Err → Bool
+  | .indexError => true
+  | .stopIteration => true
+  | .valueError => false
+  | .zeroDivision => false
+
+def stepE (g : Gen) : Op → Gen × Out
+  | .choice n w =>
+    match choice g.s n w with
+    | .ok (s', i) => ({ g with s := s' }, .idx i)
+    | .error e => (if errConsumes e then { g with s := next g.s } else g, .err e)
+  | .choicew n w =>
+    match choicew g.s n w with
+    | .ok (s', i, x) => ({ g with s := s' }, .idxw i x)
+    | .error e => (if errConsumes e then { g with s := next g.s } else g, .err e)
+  | o => step g o
+
+/-- the phase-4 runners, parametrised by the single-call semantics `f` (`step` or `stepE`) -/
+def cstepW (f : Gen → Op → Gen × Out) (x : Inst) : Call → Inst × Option Out
+  | .op o => let (g', out) := f x.g o; ({ x with g := g' }, some out)
+  | .reseed s => (fresh s, none)
+  | .repickle => (fresh x.seed0, none)
+
+def crunOneW (f : Gen → Op → Gen × Out) (x : Inst) : List Call → List Out
+  | [] => []
+  | c :: cs =>
+    let (x', o) := cstepW f x c
+    match o with
+    | some out => out :: crunOneW f x' cs
+    | none => crunOneW f x' cs
+
+def cafterW (f : Gen → Op → Gen × Out) (x : Inst) : List Call → Inst
+  | [] => x
+  | c :: cs => cafterW f (cstepW f x c).1 cs
+
+def crunW (f : Gen → Op → Gen × Out) (st : Nat → Inst) : List (Nat × Call) → List (Nat × Out)
+  | [] => []
+  | (i, c) :: h =>
+    let (x', o) := cstepW f (st i) c
+    let rest := crunW f (fun j => if j = i then x' else st j) h
+    match o with
+    | some out => (i, out) :: rest
+    | none => rest
+
+def runOneW (f : Gen → Op → Gen × Out) (g : Gen) : List Op → List Out
+  | [] => []
+  | op :: ops => let (g', o) := f g op; o :: runOneW f g' ops
+
 end Coba.C05
